@@ -147,6 +147,62 @@ class Streams:
                     return cc + dd + s
         return None
 
+    # ---- one BBAN text under several countries
+    def classes(self, cc):
+        return [k for n, k in self.spec_items(cc) for _ in range(n)]
+
+    def lookup_key(self, cc: str, bban: str) -> str:
+        spec = self.table[cc]
+        out = ""
+        for comp in spec.get("bic_lookup_components", ["bank_code"]):
+            s_, e_ = spec.get("positions", {}).get(comp, [0, 0])
+            out += bban[s_:e_] if s_ < len(bban) and e_ <= len(bban) else ""
+        return out
+
+    def shared_bbans(self, per_pair: int = 1):
+        """(A, B, text): for every pair of different countries whose structures admit a common BBAN
+        text (same length, compatible class at every position), `per_pair` such texts; where the
+        registry lists banks for A or B, the bank-identifying field of some texts is a listed code.
+        State keyed by the BBAN text alone (and not by the country) shows up on exactly these."""
+        def inter(a, b):
+            if a == b:
+                return a
+            if "c" in (a, b):
+                o = b if a == "c" else a
+                return o if o in "na" else None
+            return None
+        out = []
+        cs = {cc: self.classes(cc) for cc in self.countries}
+        for A in self.countries:
+            for B in self.countries:
+                if A >= B or len(cs[A]) != len(cs[B]):
+                    continue
+                cl = [inter(x, y) for x, y in zip(cs[A], cs[B])]
+                if not all(cl):
+                    continue
+                for j in range(per_pair):
+                    b = [self.draw_class(k) for k in cl]
+                    src = (A, B)[j % 2] if self.r.random() < 0.7 else None
+                    if src:
+                        spec = self.table[src]
+                        cands = [e for e in self.banks_of(src) if e["bank_code"]]
+                        if cands and "positions" in spec:
+                            code, pos = self.r.choice(cands)["bank_code"], 0
+                            for comp in spec.get("bic_lookup_components", ["bank_code"]):
+                                s_, e_ = spec["positions"].get(comp, [0, 0])
+                                seg = code[pos:pos + e_ - s_].ljust(e_ - s_, "0")
+                                if all(ch in (DIGITS if k == "n" else UPPER if k == "a" else DIGITS + UPPER)
+                                       for ch, k in zip(seg, cl[s_:e_])):
+                                    b[s_:e_] = list(seg)
+                                pos += e_ - s_
+                    out.append((A, B, "".join(b)[: len(cl)]))
+        return out
+
+    def entries_for(self, pairs):
+        """The registry entries that the lookups of (country, BBAN) pairs can touch."""
+        keys = {(cc, self.lookup_key(cc, b)) for cc, b in pairs}
+        return [e for e in self.banks if (e["country_code"], e["bank_code"]) in keys]
+
     # ---- mutations
     def mutate(self, s: str) -> str:
         r = self.r
